@@ -1,6 +1,6 @@
 (* C04: periodic direction, fully valid ring = centred difference with wrap-around. *)
 From Coq Require Import Field.
-From DF Require Import Prelude FieldK NDArray Diff ListLemmas C04_proofs.
+From DF Require Import Prelude Constants_gen FieldK NDArray Diff ListLemmas C04_proofs.
 
 Lemma last_nth_len {A} (l : list A) d : last l d = nth (length l - 1) l d.
 Proof.
@@ -115,15 +115,16 @@ Proof.
     rewrite Nat.mod_add by lia. reflexivity. }
   assert (Em : nth (S j - 1) (wrap1 0 u) 0 = nth ((j + n - 1) mod n) u 0).
   { rewrite W by lia. replace (S j - 1 + n - 1)%nat with (j + n - 1)%nat by lia. reflexivity. }
+  assert (Einterior : forall a b c : K, lincomb K d2_interior [a; b; c] = a - two * b + c).
+  { intros a b c. norm_stencil. unfold f2. ring. }
   destruct (Nat.ltb_spec (n + 2) 4) as [C | _].
-  - (* single-cell ring *)
-    assert (n = 1%nat) by lia. assert (j = 0%nat) by lia. subst j.
-    replace 0%nat with (S 0 - 1)%nat at 1 by reflexivity. rewrite Em.
-    change 1%nat with (S 0) at 1. rewrite Ej.
-    replace 2%nat with (S 0 + 1)%nat by reflexivity. rewrite Ep. reflexivity.
-  - destruct (Nat.eqb_spec (S j) 0) as [C | _]; [lia|].
-    destruct (Nat.eqb_spec (S j) (n + 2 - 1)) as [C | _]; [lia|].
-    rewrite Ej, Ep, Em. reflexivity.
+  - (* single-cell ring: three-point run, the cell is its interior point *)
+    destruct (Nat.eqb_spec (S j) 0) as [C0 | _]; [lia|].
+    destruct (Nat.eqb_spec (S j) (n + 2 - 1)) as [C1 | _]; [lia|].
+    rewrite Ej, Ep, Em. rewrite Einterior. reflexivity.
+  - destruct (Nat.eqb_spec (S j) 0) as [C0 | _]; [lia|].
+    destruct (Nat.eqb_spec (S j) (n + 2 - 1)) as [C1 | _]; [lia|].
+    rewrite Ej, Ep, Em. rewrite Einterior. reflexivity.
 Qed.
 
 End Ring.
